@@ -88,3 +88,41 @@ Proof.
     + destruct (- Z.of_nat (length vs) <=? k)%Z eqn:E1; [apply nth_error_None in En; apply Z.leb_gt in E0; lia | apply Z.leb_gt in E1; lia].
   - split; auto.
 Qed.
+
+(* ------------------------------------------------------------------------------------------
+   Composition with C09 (Scopes/Analysis.v: the model of FunctionScope's collecting phase; Scopes/Paths.v:
+   strict path semantics over assignments, uses, if/else, while/for with else, `while True`,
+   break/continue, with, try/except/else/finally).
+
+   pyanalyze's value of a name at a use is the union of the values of the definition nodes recorded
+   for that use.  Let `vals d` be the abstract value stored for definition node d (node UN, the
+   "unbound" marker, included).  If the object bound to the variable along a strict path comes from
+   definition d and belongs to `vals d`, it belongs to the union over the *reported* nodes: the
+   reaching-definitions hypothesis of the C01 loop rule is discharged by the C09 lower-bound theorem
+   (guard lower_ok: nothing follows a break/continue in its block; no break/continue leaves a try
+   statement that has a finally clause). *)
+Require Import PV.Scopes.Syntax PV.Scopes.Analysis PV.Scopes.Paths PV.Scopes.Guards PV.Proofs.ScopesSound.
+
+Definition name_value (vals : node -> val) (p : block) (u : N) : val :=
+  VUnion (map vals (reported p u)).
+
+Theorem name_value_sound_from_c09 : forall (vals : node -> val) p u d o,
+  lower_ok p = true -> strict_reach p u d -> member o (vals d) = true ->
+  member o (name_value vals p u) = true.
+Proof.
+  intros vals p u d o Hok Hreach Hm.
+  pose proof (strict_sub_reported p u d Hok Hreach) as Hin.
+  unfold name_value. rewrite member_union. apply existsb_exists.
+  exists (vals d). split; auto. apply in_map. exact Hin.
+Qed.
+
+(* a use whose inferred name value is Never is not reached along any strict path on which the
+   variable is bound by a definition whose value is inhabited by the runtime object *)
+Theorem name_value_never_unreachable_from_c09 : forall (vals : node -> val) p u d o,
+  lower_ok p = true -> strict_reach p u d -> member o (vals d) = true ->
+  name_value vals p u <> VNever.
+Proof.
+  intros vals p u d o Hok Hreach Hm Heq.
+  pose proof (name_value_sound_from_c09 vals p u d o Hok Hreach Hm) as H.
+  rewrite Heq in H. rewrite member_never in H. discriminate.
+Qed.
